@@ -1394,12 +1394,15 @@ def c20_scan(tokens):
     return tick, pkts, part_start, last_bytes
 
 
+C20_RMAX = 2      # read_rate_max of every configuration: the read timeout may be extended by up to this many seconds
+
+
 def c20_pad(tokens, ka, rate, rtimeout):
     """the model stops ticking when the connection has ended; the real run keeps watching until the
     verdict is robust: silence is appended until KA + 2 (read timeout + 2) ticks after the last arrival"""
     n, pkts, part_start, last_bytes = c20_scan(tokens)
     if rate > 0 and part_start is not None:
-        want = last_bytes + 2 * rtimeout + 3
+        want = last_bytes + rtimeout + C20_RMAX + 4
     elif ka > 0:
         want = pkts[-1] + ka + 3
     else:
@@ -1414,11 +1417,14 @@ def c20_expect(tokens, ka, rate, rtimeout, rmax):
     gaps = [b - a for a, b in zip(pkts, pkts[1:])] + [n - last]
     if rate > 0 and part_start is not None:
         # a partial frame is pending: read-rate rules apply
-        if n - last_bytes >= 2 * rtimeout + 3 and last_bytes == part_start:
-            # one burst, then silence: the read timer expires one period after the burst, or two if the
-            # burst itself was above the rate (the statement fixes the reason, not the exact period)
+        if n - last_bytes >= rtimeout + C20_RMAX + 4 and last_bytes == part_start:
+            # one burst, then silence: the read timer expires one period after the burst; a burst above the rate
+            # extends it, by at most read_rate_max seconds in all.  The statement fixes the reason of the
+            # timeout, not its exact time: the window is [one period after the burst, one period + the maximum
+            # extension + timer granularity] (a window without the extension raised a false alarm for
+            # "PINGREQ, 8 bytes of a frame one second later, silence": read timeout after 5.05 s)
             t = part_start + rtimeout
-            return ("expect_read", (t - 1) * 1000 - 500, (t + rtimeout + 2) * 1000 + 900)
+            return ("expect_read", (t - 1) * 1000 - 500, (t + C20_RMAX + 2) * 1000 + 900)
         return None
     if ka > 0 and max(gaps) <= ka - 2:
         return ("expect_alive", 0, 0)
